@@ -32,6 +32,19 @@ pub fn exec(rest: &str, out: &mut Out) -> (String, bool) {
         out.oracle(xr.unordered_eq(&y) == r && y.unordered_eq(&xr) == r && xr.unordered_eq(&x), "content only: a value rebuilt with heap-backed buffers compares the same", || String::new());
     }
     out.oracle((x.as_unordered() == y.as_unordered()) == r && (Unordered(x.clone()) == Unordered(y.clone())) == r, "Unordered<T> wrappers agree", || String::new());
+    // the other implementors: Object itself, Vec<T>, locspan's Meta<T, M> (metadata compared with ==)
+    // (Value has no UnorderedHash impl: nothing to check there)
+    {
+        use locspan::Meta;
+        let (mx, my, mz) = (Meta(x.clone(), 7u8), Meta(y.clone(), 7u8), Meta(y.clone(), 8u8));
+        out.oracle(mx.unordered_eq(&my) == r && my.unordered_eq(&mx) == r && !mx.unordered_eq(&mz) && (Unordered(mx.clone()) == Unordered(my.clone())) == r,
+            "Meta<T, M>: equal metadata and unordered-equal values", || format!("{} / reference {}", mx.unordered_eq(&my), r));
+        let (vx, vy) = (vec![x.clone(), y.clone(), x.clone()], vec![y.clone(), x.clone(), x.clone()]);
+        out.oracle(vx.unordered_eq(&vy) == r && !vx.unordered_eq(&vec![x.clone(), y.clone()]) && vec![mx.clone()].unordered_eq(&vec![my.clone()]) == r, "Vec<T>: same length, item-wise", || String::new());
+        if let (Value::Object(p), Value::Object(q)) = (&x, &y) {
+            out.oracle(p.unordered_eq(q) == r && q.unordered_eq(p) == r && (Unordered(p.clone()) == Unordered(q.clone())) == r, "Object's own impl agrees with Value's", || String::new());
+        }
+    }
     out.count(if r { "equal" } else { "different" });
     if r && x != y { out.count("equal_but_reordered"); }
     (r.to_string(), x != y)
